@@ -60,6 +60,31 @@ def main():
             cell(m.get('needs_to_manifest', '')),
             (', '.join(legs) or ('-' if not v.get('detected') else 'tie')) + (' [%s]' % v.get('check', {}).get('mode', '')),
             'yes' if v.get('failing_input_found') else ('no-failing-input-found' if v.get('detected') else 'MISSED')))
+    out.append('')
+    out.append('### 19.3 Behaviour-preserving rewrites (section 20): every registered check, all legs, against each patch\n')
+    out.append('| id | written for | what the rewrite does | checks run | pass | tie broken, no failing input (which) | '
+               'alarm with failing input |')
+    out.append('|---|---|---|---|---|---|---|')
+    tot = [0, 0, 0, 0]
+    for d in sorted(glob.glob(os.path.join(VERIF, 'harmless', '*'))):
+        try:
+            m = json.load(open(os.path.join(d, 'meta.json')))
+        except Exception:
+            m = {}
+        try:
+            r = json.load(open(os.path.join(d, 'result.json')))
+        except Exception:
+            continue
+        runs = r.get('runs', {})
+        ok = [k for k, v in runs.items() if v.get('rc') == 0]
+        tie = [k for k, v in runs.items() if v.get('rc') == 1 and not v.get('with_failing_input')]
+        alarm = [k for k, v in runs.items() if v.get('rc') == 1 and v.get('with_failing_input')]
+        other = [k for k, v in runs.items() if v.get('rc') not in (0, 1)]
+        tot[0] += len(runs); tot[1] += len(ok); tot[2] += len(tie); tot[3] += len(alarm) + len(other)
+        out.append('| %s | %s | %s | %d | %d | %s | %s |' % (
+            os.path.basename(d), m.get('property', ''), str(m.get('summary', '')).replace('|', '/').replace('\n', ' ')[:150],
+            len(runs), len(ok), ', '.join(sorted(tie)) or '-', ', '.join(sorted(alarm + other)) or '-'))
+    out.append('| **total** | | | %d | %d | %d | %d |' % tuple(tot))
     text = '\n'.join(out) + '\n'
     p = os.path.join(VERIF, 'DESIGN.md')
     s = open(p).read()
